@@ -319,6 +319,7 @@ type rtspCase struct {
 	Cred   string `json:"cred"`
 	Pass   string `json:"pass"`
 	Query  string `json:"query"` // appended to the request URL ("" = none)
+	User   string `json:"user,omitempty"` // the configured user name ("" = user1)
 }
 
 func digestHeader(user, pass, realm, nonce, method, uri string) string {
@@ -344,6 +345,9 @@ func between(s, a, b string) string {
 func runRtspAuth(r *vk.Run, c rtspCase) {
 	r.Eval(1)
 	user := "user1"
+	if c.User != "" {
+		user = c.User
+	}
 	w := world.New(world.Conf{"rtsp.enable": true, "rtsp.auth_enable": true, "rtsp.auth_method": c.Method, "rtsp.username": user, "rtsp.password": c.Pass})
 	defer w.Close()
 	fail := func(key, f string, a ...interface{}) {
@@ -669,9 +673,24 @@ func main() {
 				// the request URL with and without a query string (simple-auth's secret travels there; '=',
 				// '&' and ',' then appear inside the quoted uri of a Digest header)
 				for _, q := range []string{"", "?lal_secret=0123456789abcdef0123456789abcdef", "?a=1&b=2", "?x=1,2"} {
-					rcs = append(rcs, rtspCase{m, cr, pass, q})
+					rcs = append(rcs, rtspCase{Method: m, Cred: cr, Pass: pass, Query: q})
 				}
 			}
+		}
+	}
+	// user names: every printable first character (the first character of the base64 credentials of Basic
+	// and the first of the quoted user name of Digest range over everything a header parser might strip)
+	for m := 0; m <= 1; m++ {
+		for b := byte(0x21); b < 0x7f; b++ {
+			if b == '"' || b == ':' || b == '\\' {
+				continue
+			}
+			for _, cr := range []string{"right", "wrong-password"} {
+				rcs = append(rcs, rtspCase{Method: m, Cred: cr, Pass: "p4ss", User: string([]byte{b}) + "ser"})
+			}
+		}
+		for _, u := range []string{"Basic", "Digest", "a", "B", "admin", "root", "service", "caiss", " lead"} {
+			rcs = append(rcs, rtspCase{Method: m, Cred: "right", Pass: "p4ss", User: u})
 		}
 	}
 	vk.Par(len(rcs), 8, func(i int) { runRtspAuth(r, rcs[i]) })
